@@ -31,6 +31,7 @@ import typing
 from collections.abc import Awaitable, Callable
 from typing import Any
 
+from tornado import _verif
 from tornado import httputil, iostream, netutil
 from tornado.escape import native_str
 from tornado.http1connection import HTTP1ConnectionParameters, HTTP1ServerConnection
@@ -198,6 +199,8 @@ class HTTPServer(TCPServer, Configurable, httputil.HTTPServerConnectionDelegate)
             read_chunk_size=chunk_size,
         )
         self._connections: set[HTTP1ServerConnection] = set()
+        if _verif.ENABLED:
+            self._connections = _verif.OrderedSet()  # type: ignore
         self.trusted_downstream = trusted_downstream
 
     @classmethod
